@@ -370,3 +370,182 @@ _c08_zhit_only = c08_targets
 
 def c08_targets():       # noqa: F811
     return _c08_zhit_only() + [target_kk_producer("_use_matrix_inversion", "_inversion_test"), target_kk_producer("_use_least_squares_fitting", "_leastsq_test"), target_kk_results()]
+
+
+# ------------------------------------------------------------------------------------------------ fitting
+FITTING = "analysis/fitting"
+
+
+def target_fit_process():
+    """_fit_process: fits a deep copy, writes the fitted values into that copy BEFORE evaluating it, and the returned pseudo
+    chi-squared is chisqr(Z_exp, copy.get_impedances(f)) of the returned circuit in its returned state"""
+    qual = "_fit_process"
+
+    def run(sess: Session):
+        class Cir:
+            def __init__(self, name):
+                self.name, self.version = name, 0
+
+            def get_impedances(self, f):
+                return opaque("get_impedances")(T.var(f"{self.name}@v{self.version}"), f)
+        n = 0
+
+        def once():
+            orig = Cir("original")
+            copies = []
+
+            def deepcopy(c):
+                k = Cir(f"copy{len(copies)}_of_{c.name}")
+                copies.append(k)
+                return k
+            log = []
+            fit = type("Fit", (), {"params": T.var("fit.params"), "ndata": T.var("fit.ndata"), "chisqr": T.var("fit.chisqr")})()
+
+            def from_lmfit(params, identifiers):
+                log.append(("from_lmfit", params, identifiers))
+                for c in copies:
+                    c.version += 1
+            ns = {"deepcopy": deepcopy, "Circuit": Cir, "isinstance": isinstance, "_is_floating_array": lambda x: True, "_is_complex_array": lambda x: True, "_is_integer": lambda x: True,
+                  "_is_boolean": lambda x: True, "str": str, "generate_fit_identifiers": opaque("generate_fit_identifiers"), "_WEIGHT_FUNCTIONS": {"boukamp": "W"},
+                  "catch_warnings": type("CW", (), {"__enter__": lambda s: s, "__exit__": lambda s, *a: False}), "filterwarnings": lambda *a, **k: None,
+                  "minimize": lambda *a, **k: log.append(("minimize", a, k)) or fit, "_residual": "residual", "_to_lmfit": opaque("_to_lmfit"), "_from_lmfit": from_lmfit,
+                  "_calculate_pseudo_chisqr": opaque("_calculate_pseudo_chisqr"), "len": lambda x: T.var("len(f)"), "log": opaque("log"), "inf": float("inf"), "format_exc": lambda: "tb",
+                  "DeprecationWarning": DeprecationWarning, "RuntimeWarning": RuntimeWarning, "Exception": Exception, "Warning": Warning}
+            O.load(FITTING, [qual], ns)
+            f, Z = T.var("f"), T.var("Z_exp")
+            out = ns[qual]((orig, f, Z, "leastsq", "boukamp", T.var("max_nfev"), True, {}, {}))
+            return orig, copies, log, out, f, Z, fit
+        for dec, (orig, copies, log, out, f, Z, fit), facts in explore(once):
+            n += 1
+            tag = "[" + ",".join(f"{w}={v}" for w, v in dec) + "]"
+            circuit, chi, fitobj = out[0], out[1], out[2]
+            sess.check("frame", [], z3.BoolVal(len(copies) == 1 and circuit is copies[0] and circuit is not orig and orig.version == 0), 0, label=f"works on and returns ONE deep copy; the circuit passed in is untouched{tag}")
+            if fitobj is None:
+                sess.check("post", [], z3.BoolVal(chi == float("inf")), 0, label=f"a rejected fit is reported with chi-squared inf{tag}")
+                continue
+            order = [e[0] for e in log]
+            sess.check("post", [], z3.BoolVal(order == ["minimize", "from_lmfit"] and log[1][1] is fit.params), 0, label=f"fitted values (fit.params) are written into the copy before it is evaluated{tag}")
+            args_, kw_ = log[0][1], log[0][2]
+            sess.check("post", [], z3.BoolVal(kw_.get("args", (None,))[0] is circuit and args_[2] == "leastsq"), 0, label=f"the minimiser works on the same copy with the requested method{tag}")
+            eq_check(sess, f"pseudo_chisqr == chisqr(Z_exp, returned circuit.get_impedances(f)) in its final state{tag}", chi,
+                     opaque("_calculate_pseudo_chisqr")(Z_exp=Z, Z_fit=opaque("get_impedances")(T.var(f"{circuit.name}@v1"), f)))
+        sess.check("cover", [], z3.BoolVal(n >= 2), 0, label=f"paths={n}")
+    return (f"{FITTING}:{qual}", FITTING, qual, run)
+
+
+def target_convert_result():
+    qual = "_convert_intermediate_result"
+
+    def run(sess: Session):
+        made = []
+
+        class Cir:
+            def get_impedances(self, f):
+                return opaque("get_impedances")(T.var("circuit"), f)
+        cir = Cir()
+        ns = {"FitResult": lambda **kw: made.append(kw) or "RESULT", "_extract_parameters": opaque("_extract_parameters"), "_calculate_residuals": opaque("_calculate_residuals"),
+              "FittingError": type("FittingError", (Exception,), {})}
+        O.load(FITTING, [qual], ns)
+        f, Z, Xps, fit = T.var("f"), T.var("Z_exp"), T.var("Xps"), T.var("fit")
+        ORACLE_SAVE = None
+        global ORACLE
+        ORACLE = Oracle([])
+        out = ns[qual]((cir, Xps, fit, "m", "w", ""), f, Z)
+        kw = made[0]
+        sess.check("post", [], z3.BoolVal(out == "RESULT" and kw["circuit"] is cir and kw["pseudo_chisqr"] is Xps and kw["frequencies"] is f and kw["minimizer_result"] is fit and (kw["method"], kw["weight"]) == ("m", "w")), 0, label="circuit, chi-squared, frequencies, method, weight passed through unchanged")
+        eq_check(sess, "impedances == circuit.get_impedances(frequencies)", kw["impedances"], cir.get_impedances(f))
+        eq_check(sess, "residuals == residuals(Z_exp, impedances)", kw["residuals"], opaque("_calculate_residuals")(Z, kw["impedances"]))
+        eq_check(sess, "parameters == _extract_parameters(circuit, fit)", kw["parameters"], opaque("_extract_parameters")(cir, fit))
+    return (f"{FITTING}:{qual}", FITTING, qual, run)
+
+
+_c08_without_fit = c08_targets
+
+
+def c08_targets():       # noqa: F811
+    return _c08_without_fit() + [target_fit_process(), target_convert_result()]
+
+
+# ------------------------------------------------------------------------------------------------ DRT (TR-NNLS)
+TRNNLS = "analysis/drt/tr_nnls"
+
+
+def real_progress_class():
+    """the real pyimpspec.progress.Progress (notification back end stubbed), so an excess increment raises as in production"""
+    import ast as _ast
+    from pyvc.core import find_def
+    cls = find_def("progress", "Progress")
+    cls2 = _ast.ClassDef(name="Progress", bases=[], keywords=[], body=[O.strip(m) for m in cls.body if isinstance(m, _ast.FunctionDef)], decorator_list=[])
+    m2 = _ast.Module(body=[cls2], type_ignores=[])
+    _ast.fix_missing_locations(m2)
+    pns = {"_update_every_N_percent": lambda **kw: None}
+    exec(compile(m2, "<progress:Progress>", "exec"), pns)
+    return pns["Progress"]
+
+
+def target_trnnls(which: str):
+    """calculate_drt_tr_nnls on uninterpreted terms, for the three lambda modes (oracle-enumerated) and both fit modes:
+    which='result'  -> the TRNNLSResult is consistent with the data (C08);
+    which='steps'   -> the hand-written total of the Progress context covers the increments on every path (C18)."""
+    qual = "calculate_drt_tr_nnls"
+
+    def run(sess: Session):
+        n = 0
+        for mode in ("real", "imaginary"):
+            def once():
+                made, progs = [], []
+                RP = real_progress_class()
+
+                def mkprog(*a, **k):
+                    p = RP(*a, **k)
+                    progs.append(p)
+                    return p
+                data = T.var("data")
+                ns = {"isinstance": lambda a, b: True, "_MODES": ["real", "imaginary"], "_is_floating": lambda x: True, "_is_integer": lambda x: True, "DataSet": object, "str": str,
+                      "Progress": mkprog, "len": lambda x: 5, "pi": 3.0, "identity": opaque("identity"), "int64": None, "float64": None,
+                      "_calculate_delta_ln_tau": opaque("_calculate_delta_ln_tau"), "_normalize_impedance": lambda Z: (opaque("Z_norm")(Z), opaque("R_inf")(Z), opaque("R_pol")(Z)),
+                      "_generate_A_matrix": opaque("_generate_A_matrix"), "_generate_b_vector": opaque("_generate_b_vector"), "_l_curve_corner_search": opaque("_l_curve_corner_search"),
+                      "_l_curve_P": opaque("_l_curve_P"), "_suggest_lambda": opaque("_suggest_lambda"), "_test_lambda_values": lambda *a: (opaque("tested")(*a),),
+                      "_generate_lambda_values": opaque("_generate_lambda_values"), "_generate_tikhonov_matrix": opaque("_generate_tikhonov_matrix"), "_solve": opaque("_solve"),
+                      "_generate_model_impedance": opaque("_generate_model_impedance"), "_calculate_residuals": opaque("_calculate_residuals"),
+                      "_calculate_pseudo_chisqr": opaque("_calculate_pseudo_chisqr"), "TRNNLSResult": lambda **kw: made.append(kw) or "RESULT"}
+                O.load(TRNNLS, [qual], ns)
+                err = None
+                try:
+                    ns[qual](data, mode=mode, lambda_value=T.var("lambda_value"), max_iter=7)
+                except Exception as ex:  # noqa
+                    err = ex
+                return data, made, progs, err
+            for dec, (data, made, progs, err), facts in explore(once):
+                n += 1
+                tag = f"[mode={mode}," + ",".join(f"{w}={v}" for w, v in dec) + "]"
+                if which == "steps":
+                    ob = sess.check("exc-free", [], z3.BoolVal(err is None), 0, label=f"no abort from step accounting{tag}")
+                    if err is not None:
+                        ob.detail = f"{type(err).__name__}: {str(err)[:120]}"
+                    if progs:
+                        p = progs[0]
+                        sess.check("post", [], z3.BoolVal(0 <= p._i <= p._total), 0, label=f"0 <= steps taken <= total{tag}")
+                    continue
+                if err is not None or len(made) != 1:
+                    sess.check("post", [], z3.BoolVal(False), 0, label=f"returns one result{tag}")
+                    continue
+                kw = made[0]
+                Z = data.get_impedances()
+                eq_check(sess, f"frequencies == data.get_frequencies(){tag}", kw["frequencies"], data.get_frequencies())
+                eq_check(sess, f"residuals == residuals(data.get_impedances(), impedances){tag}", kw["residuals"], opaque("_calculate_residuals")(Z, kw["impedances"]))
+                eq_check(sess, f"pseudo_chisqr == chisqr(data.get_impedances(), impedances){tag}", kw["pseudo_chisqr"], opaque("_calculate_pseudo_chisqr")(Z, kw["impedances"]))
+                eq_check(sess, f"gammas == g_tau * R_pol(data.get_impedances()){tag}", kw["gammas"], T(fn("mul", 2)(tv(_find_arg(kw["gammas"], 0)), tv(opaque("R_pol")(Z)))))
+        sess.check("cover", [], z3.BoolVal(n >= 6), 0, label=f"paths={n}")
+    return (f"{TRNNLS}:{qual}[{which}]", TRNNLS, qual, run)
+
+
+def _find_arg(term: "T", i: int):
+    return T(term.e.arg(i))
+
+
+_c08_without_drt = c08_targets
+
+
+def c08_targets():       # noqa: F811
+    return _c08_without_drt() + [target_trnnls("result")]
